@@ -966,11 +966,12 @@ static int32_t reconstruct_omitted_chunk(struct jls_core_s * self, uint16_t sign
             construct_f32(sample_id + k * sz_samples, (float *) d, sz_samples, mu32, std32);
         } else if (signal_def->data_type == JLS_DATATYPE_F64) {
             construct_f64(sample_id + k * sz_samples, (double *) d, sz_samples, mu64, std64);
-        } else if (signal_def->data_type == JLS_DATATYPE_U8) {
-            uint8_t value = (uint8_t) roundf(mu32);
+        } else if ((signal_def->data_type == JLS_DATATYPE_U8) || (signal_def->data_type == JLS_DATATYPE_I8)) {
+            // the writer omits constant blocks of all types of 8 bits or less, signed ones included
+            uint8_t value = (uint8_t) (int32_t) roundf(mu32);
             memset(d, value, sz_bytes);
-        } else if (signal_def->data_type == JLS_DATATYPE_U4) {
-            uint8_t value = ((uint8_t) roundf(mu32)) & 0x0F;
+        } else if ((signal_def->data_type == JLS_DATATYPE_U4) || (signal_def->data_type == JLS_DATATYPE_I4)) {
+            uint8_t value = ((uint8_t) (int32_t) roundf(mu32)) & 0x0F;
             value |= (value << 4);
             memset(d, value, sz_bytes);
         } else if (signal_def->data_type == JLS_DATATYPE_U1) {
@@ -980,8 +981,7 @@ static int32_t reconstruct_omitted_chunk(struct jls_core_s * self, uint16_t sign
             }
             memset(d, value, sz_bytes);
         } else {
-            memset(d, 0, sz_bytes);  // for now, set to zero
-            break;
+            memset(d, 0, sz_bytes);  // for now, set to zero (the samples still count)
         }
         d += sz_bytes;
         ++s_index;
